@@ -718,6 +718,23 @@ func checkForwarder(c *an.Ctx, fn *ssa.Function, ri routerInfo, m svcMethod) str
 	if cancel == nil {
 		return "no cancel function for the child request"
 	}
+	// whenever the child ends the stream (not the caller), its trailer is read before returning
+	isCancelCall := func(in ssa.Instruction) bool {
+		call, ok := in.(*ssa.Call)
+		if !ok {
+			return false
+		}
+		for _, s := range an.Sources(call.Call.Value) {
+			if s == cancel {
+				return true
+			}
+		}
+		return false
+	}
+	if t, _ := (an.PathQuery{Target: func(in ssa.Instruction) bool { _, isR := in.(*ssa.Return); return isR },
+		Avoid: func(in ssa.Instruction) bool { return in == ssa.Instruction(trailer) || isCancelCall(in) || in == ssa.Instruction(send) }}).From(fn, recv); t != nil {
+		return "a path on which the child ended the stream returns without reading the child's trailer: trailer metadata of streams that end with an error status is lost"
+	}
 	cancelled := false
 	an.Instrs(fn, func(in ssa.Instruction) {
 		if call, ok := in.(*ssa.Call); ok {
@@ -1102,6 +1119,30 @@ func r125(c *an.Ctx) {
 			}
 		})
 		c.Check(okOrder, rule, "pkg/middleware/name."+iname+"|fills the name before the handler runs", f.Pos(), "", "the interceptor does not default the name before invoking the handler")
+	}
+	if f := c.Prog.Func("pkg/middleware/name", "", "IfAbsentStreamInterceptor"); f != nil && len(f.AnonFuncs) == 1 {
+		a := f.AnonFuncs[0]
+		okWrap := false
+		an.Instrs(a, func(in ssa.Instruction) {
+			call, ok := in.(*ssa.Call)
+			if !ok || an.CalleeName(call) != "dynamic" || len(call.Call.Args) != 2 {
+				return
+			}
+			// the stream handed to the handler: a wrapper allocated in this call, embedding this call's stream
+			for _, s := range an.Sources(call.Call.Args[1]) {
+				al, isAlloc := s.(*ssa.Alloc)
+				if !isAlloc || al.Parent() != a {
+					continue
+				}
+				fields, _ := litFields(al)
+				for _, v := range an.Sources(fields["ServerStream"]) {
+					if p, isP := v.(*ssa.Parameter); isP && p.Parent() == a {
+						okWrap = true
+					}
+				}
+			}
+		})
+		c.Check(okWrap, rule, "pkg/middleware/name.IfAbsentStreamInterceptor|each call gets its own stream wrapper", f.Pos(), "", "the stream wrapper handed to the handler is not allocated per call around that call's own stream: overlapping streams share one wrapper and read/write each other's transport")
 	}
 	if f := c.Prog.Func("pkg/middleware/name", "absentNameReplaceServerStream", "RecvMsg"); f != nil {
 		calls := an.CallsTo(f, an.FuncQName(fn))
